@@ -31,7 +31,9 @@ Fresh(cid) == [cid |-> cid,
                relay |-> "none",      \* none | running | exited
                reg |-> FALSE,         \* in the connection registry
                dials |-> 0, conn |-> FALSE,
-               wr |-> {}]             \* goroutine roles inside Tunnel.Write
+               wr |-> {},             \* goroutine roles inside Tunnel.Write
+               cur |-> 0,             \* type of the packet the loop is handling (0 = none)
+               prog |-> 0]            \* how far the packets RECEIVED so far got through handshake(1), tunnel create(4), tunnel auth(6)
 
 VARIABLES st,       \* tunnel object -> record
           regBusy   \* tunnel objects inside RegisterTunnel / RemoveTunnel
@@ -96,10 +98,13 @@ Pre_Reading(u) == If(st[u].reg /\ st[u].h = "serving" /\ st[u].loop \in {"none",
 Eff_Reading(u) == [st[u] EXCEPT !.loop = "reading"]
 Pre_Read(u) == If(st[u].loop = "reading", "G_C08_OneReaderPerTunnel")
 Eff_Read(u) == [st[u] EXCEPT !.loop = "idle"]
-Pre_Recv(u) == If(st[u].loop = "idle", "G_C08_OneReaderPerTunnel")
-Eff_Recv(u) == [st[u] EXCEPT !.loop = "handling"]
+\* packet types of MS-TSGU as the loop sees them
+T_HS == 1  T_CREATE == 4  T_AUTH == 6  T_CHAN == 8  T_DATA == 10
+NextProg(pr, t) == IF (pr = 0 /\ t = T_HS) \/ (pr = 1 /\ t = T_CREATE) \/ (pr = 2 /\ t = T_AUTH) THEN pr + 1 ELSE pr
+Pre_Recv(u, t) == If(st[u].loop = "idle", "G_C08_OneReaderPerTunnel")
+Eff_Recv(u, t) == [st[u] EXCEPT !.loop = "handling", !.cur = t, !.prog = NextProg(@, t)]
 Pre_Step(u) == If(st[u].loop = "handling", "G_C08_OneReaderPerTunnel")
-Eff_Step(u) == [st[u] EXCEPT !.loop = "idle"]
+Eff_Step(u) == [st[u] EXCEPT !.loop = "idle", !.cur = 0]
 Pre_LoopExit(u) == If(st[u].loop \in {"none", "idle", "handling", "reading"} /\ st[u].h = "serving", "G_C11_LoopExitsOnce")
 Eff_LoopExit(u) == [st[u] EXCEPT !.loop = "exited"]
 
@@ -107,12 +112,16 @@ Eff_LoopExit(u) == [st[u] EXCEPT !.loop = "exited"]
 Pre_Dial(u) ==
   If(st[u].loop = "handling", "G_C01_DialByTheLoopOnly")
   \cup If(st[u].dials = 0 /\ ~st[u].conn, "G_C01_AtMostOneDial")
+  \* seen from inside the gateway: only while a channel request is being handled, and only on a tunnel that has
+  \* received handshake, tunnel create and tunnel authorisation in that order before
+  \cup If(st[u].cur = T_CHAN /\ st[u].prog = 3, "G_C01_DialOnlyForAChannelRequestAfterTheSteps")
 Eff_Dial(u) == [st[u] EXCEPT !.dials = IF @ < 2 THEN @ + 1 ELSE @]
 Pre_Dialed(u, ok) == If(st[u].dials >= 1 /\ st[u].loop = "handling" /\ ~st[u].conn, "G_C01_DialByTheLoopOnly")
 Eff_Dialed(u, ok) == [st[u] EXCEPT !.conn = ok]
 
 \* payload towards the host: by the loop, on a connected tunnel
 Pre_ToHost(u) == If(st[u].loop = "handling" /\ st[u].conn, "G_C01_ForwardOnlyOnAConnectedTunnel")
+                 \cup If(st[u].cur = T_DATA, "G_C01_ForwardOnlyDataPackets")
 Eff_ToHost(u) == st[u]
 
 \* relay goroutine (host -> client): exists only for a connected tunnel
@@ -161,14 +170,14 @@ RegBegin(u) == /\ st[u].h = (IF st[u].tr = "ws" THEN "open" ELSE "drained") /\ s
 RegEnd(u) == st[u].h = "registering" /\ Pre_RegEnd(u) = {} /\ st' = Put(u, Eff_RegEnd(u)) /\ regBusy' = regBusy \ {u}
 Reading(u) == st[u].h = "serving" /\ st[u].loop \in {"none", "idle"} /\ Take(Pre_Reading(u), u, Eff_Reading(u))
 Read(u) == st[u].loop = "reading" /\ Take(Pre_Read(u), u, Eff_Read(u))
-Recv(u) == st[u].loop = "idle" /\ Take(Pre_Recv(u), u, Eff_Recv(u))
+Recv(u) == st[u].loop = "idle" /\ \E t \in {T_HS, T_CREATE, T_AUTH, T_CHAN, T_DATA, 13} : Take(Pre_Recv(u, t), u, Eff_Recv(u, t))
 Step(u) == st[u].loop = "handling" /\ st[u].wr \cap {"loop"} = {} /\ Take(Pre_Step(u), u, Eff_Step(u))
 \* the loop ends: a read failed (client gone), a packet was refused, or a close was answered
 LoopExit(u) == st[u].h = "serving" /\ st[u].loop \in {"idle", "handling"} /\ st[u].wr \cap {"loop"} = {} /\ Take(Pre_LoopExit(u), u, Eff_LoopExit(u))
-Dial(u) == st[u].loop = "handling" /\ st[u].dials = 0 /\ Take(Pre_Dial(u), u, Eff_Dial(u))
+Dial(u) == st[u].loop = "handling" /\ st[u].dials = 0 /\ st[u].cur = T_CHAN /\ st[u].prog = 3 /\ Take(Pre_Dial(u), u, Eff_Dial(u))
 Dialed(u) == st[u].loop = "handling" /\ st[u].dials = 1 /\ ~st[u].conn /\ st[u].relay = "none"
              /\ \E ok \in BOOLEAN : Take(Pre_Dialed(u, ok), u, Eff_Dialed(u, ok))
-ToHost(u) == st[u].loop = "handling" /\ st[u].conn /\ Take(Pre_ToHost(u), u, Eff_ToHost(u))
+ToHost(u) == st[u].loop = "handling" /\ st[u].conn /\ st[u].cur = T_DATA /\ Take(Pre_ToHost(u), u, Eff_ToHost(u))
 RelayRead(u) == st[u].conn /\ st[u].relay \in {"none", "running"} /\ "relay" \notin st[u].wr /\ Take(Pre_RelayRead(u), u, Eff_RelayRead(u))
 \* the relay ends when its read from the host fails: the host hung up, or the loop closed the connection on its way out
 RelayExit(u) == st[u].conn /\ st[u].relay \in {"none", "running"} /\ "relay" \notin st[u].wr /\ Take(Pre_RelayExit(u), u, Eff_RelayExit(u))
@@ -202,6 +211,7 @@ NothingLeftWhenHandlersAreGone ==
 AtMostOneDial == \A u \in DOMAIN st : st[u].dials <= 1
 RelayNeedsConnection == \A u \in DOMAIN st : st[u].relay # "none" => st[u].conn
 ConnectionNeedsRegisteredLoop == \A u \in DOMAIN st : st[u].conn => st[u].dials = 1
+ConnectionNeedsTheSteps == \A u \in DOMAIN st : st[u].dials > 0 => st[u].prog = 3
 \* C07
 PairingById == \A u \in DOMAIN st : st[u].cid = Cid(u)
 InOnlyAfterPublish == \A u \in DOMAIN st : (st[u].tr = "legacy" /\ st[u].h # "none") => st[u].out = "published"
